@@ -9,16 +9,22 @@ package main
 
 import (
 	"bytes"
+	"fmt"
 	"crypto/sha256"
 	"encoding/hex"
 	"sort"
 
 	gogotypes "github.com/gogo/protobuf/types"
 	abci "github.com/tendermint/tendermint/abci/types"
+	tmbytes "github.com/tendermint/tendermint/libs/bytes"
+	rpcclient "github.com/tendermint/tendermint/rpc/client"
+	ctypes "github.com/tendermint/tendermint/rpc/core/types"
 
+	"github.com/cosmos/cosmos-sdk/client"
 	"github.com/cosmos/cosmos-sdk/codec"
 	sdk "github.com/cosmos/cosmos-sdk/types"
 
+	"github.com/irismod/service/client/utils"
 	"github.com/irismod/service/keeper"
 	"github.com/irismod/service/types"
 )
@@ -88,6 +94,57 @@ func errOr(err error, f func() []string) []string {
 		return []string{"ERR"}
 	}
 	return f()
+}
+
+// obsNode is the node an off-chain client talks to: it answers the request-context query from the keeper
+// and serves the events the real EndBlocker emitted at each height
+type obsNode struct {
+	rpcclient.Client // only the two methods below are used by client/utils
+	ctx              sdk.Context
+	c                *Chain
+}
+
+func (n obsNode) ABCIQueryWithOptions(path string, data tmbytes.HexBytes, _ rpcclient.ABCIQueryOptions) (*ctypes.ResultABCIQuery, error) {
+	if path != "/irismod.service.Query/RequestContext" {
+		return nil, fmt.Errorf("unexpected query path %s", path)
+	}
+	var req types.QueryRequestContextRequest
+	if err := req.Unmarshal(data); err != nil {
+		return nil, err
+	}
+	res, err := n.c.K.RequestContext(sdk.WrapSDKContext(n.ctx), &req)
+	if err != nil {
+		return nil, err
+	}
+	bz, err := res.Marshal()
+	if err != nil {
+		return nil, err
+	}
+	return &ctypes.ResultABCIQuery{Response: abci.ResponseQuery{Value: bz, Height: n.ctx.BlockHeight()}}, nil
+}
+
+func (n obsNode) BlockResults(height *int64) (*ctypes.ResultBlockResults, error) {
+	return &ctypes.ResultBlockResults{Height: *height, EndBlockEvents: n.c.EndEvents[*height]}, nil
+}
+
+// byEvents: the request an off-chain client recovers from the identifier alone (client/utils
+// QueryRequestByTxQuery: context from the node, the compact request from the issue event of the height
+// the identifier names, at the position it names)
+func (c *Chain) byEvents(ctx sdk.Context, rid []byte) (res []string) {
+	defer func() {
+		if r := recover(); r != nil {
+			res = []string{"PANIC"}
+		}
+	}()
+	cli := client.Context{}.WithClient(obsNode{ctx: ctx, c: c})
+	x, err := utils.QueryRequestByTxQuery(cli, types.QuerierRoute, rid)
+	if err != nil {
+		return []string{"ERR"}
+	}
+	if x.Empty() {
+		return []string{dg(nil)}
+	}
+	return []string{c.dgOf(&x)}
 }
 
 // Observe queries the state reached; the chain is not modified
@@ -367,6 +424,8 @@ func (c *Chain) Observe() *Observation {
 				err := amino.UnmarshalJSON(bz, &x)
 				return []string{c.dgOf(&x)}, err
 			}))
+		gE := c.byEvents(ctx, rb)
+		add("request_by_events", QArg{Rid: r}, gE, gE)
 		res2, err := c.K.Response(gctx, &types.QueryResponseRequest{RequestId: rb})
 		add("response", QArg{Rid: r},
 			errOr(err, func() []string { return []string{c.dgOf(res2.Response)} }),
